@@ -68,6 +68,9 @@ func hasIntegralFloatOrBigUint(v ref.Val) bool {
 
 // sortOMaps: ordered-map structs come back in the codec's key order.
 func sortOMaps(typeName string, v ref.Val, less func(a, b string) bool) ref.Val {
+	if typeName == "KMap" {
+		return ref.Map(ref.E("M", ref.SortMaps(v.M[0].V, less)))
+	}
 	if typeName != "OMap" {
 		return v
 	}
@@ -110,7 +113,11 @@ func Check(c Case) (fs []core.Finding) {
 	var built datamodel.Node
 	var berr error
 	if pan := core.Guard(func() {
-		nb := bindnode.Prototype(e.New(), typ).NewBuilder()
+		proto := bindnode.Prototype(e.New(), typ)
+		var nb datamodel.NodeBuilder = proto.NewBuilder()
+		if e.BuildAtRepr {
+			nb = proto.Representation().NewBuilder()
+		}
 		if berr = ref.Assign(nb, feed(want)); berr == nil {
 			built = nb.Build()
 		}
@@ -221,7 +228,7 @@ func checkWidths(r *core.Run) {
 }
 
 func Main(r *core.Run) {
-	r.Rule("declared vocabulary of Go types (every scalar; int8…int64/uint8…uint64/float32 widths; []T and []*T; ordered-map structs with V and *V; *T optional, *T nullable, **T both; keyed union struct incl. optional; string and int enums; cid.Cid, cidlink.Link, datamodel.Link; datamodel.Node Any incl. optional; nested) each with an explicit schema × boundary values of every field: Wrap reads as the independent view of the Go value, prototype-build + Unwrap reproduces it, Marshal/Unmarshal through dag-cbor and dag-json reproduces it (ordered maps in codec order); every out-of-width integer at both levels must be an error. Histories: every sequence of ≤2 (thorough: ≤3) calls out of Wrap/Prototype/Marshal+Unmarshal with explicit, inferred and Go-only arguments over five named types (two sharing a named field type, two holding distinct Go slice types that infer to the same schema list type), each history in its own subprocess (the package-level inferred type system cannot be reset), every call compared with its result as the first call of a fresh process. Non-trivial = every value case and every history of ≥2 calls; distinct by construction.")
+	r.Rule("declared vocabulary of Go types (every scalar; int8…int64/uint8…uint64/float32 widths; []T and []*T; ordered-map structs with V and *V and with a struct key of string representation; *T optional, *T nullable, **T both; keyed union struct incl. optional; string and int enums; cid.Cid, cidlink.Link, datamodel.Link; datamodel.Node Any incl. optional; nested) each with an explicit schema × boundary values of every field: Wrap reads as the independent view of the Go value, prototype-build + Unwrap reproduces it, Marshal/Unmarshal through dag-cbor and dag-json reproduces it (ordered maps in codec order); every out-of-width integer at both levels must be an error. Histories: every sequence of ≤2 (thorough: ≤3) calls out of Wrap/Prototype/Marshal+Unmarshal with explicit, inferred and Go-only arguments over five named types (two sharing a named field type, two holding distinct Go slice types that infer to the same schema list type), each history in its own subprocess (the package-level inferred type system cannot be reset), every call compared with its result as the first call of a fresh process. Non-trivial = every value case and every history of ≥2 calls; distinct by construction.")
 	r.Assume("independent view of each Go value hand-written per type in mc/props/c19/types.go (no reflection walk shared with bindnode)")
 	var cases []Case
 	for _, e := range Vocabulary {
